@@ -604,7 +604,7 @@ class dir_archive(archive):
             root = os.path.realpath(self.__state__['id'])
             name = tempfile.mktemp(prefix="_____", dir="").replace("-","_")
             _arg = ".__args__" if input else ""
-            string = "from %s%s import memo as %s; sys.modules.pop('%s')" % (base, _arg, name, base)
+            string = "from %s%s import memo as %s; sys.modules.pop('%s'); sys.modules.pop('%s%s', None)" % (base, _arg, name, base, base, _arg)
             nocache = sys.dont_write_bytecode
             try:
                 sys.path.insert(0, root)
